@@ -34,8 +34,10 @@ CLAIMED = {
         "positionalRelation joins / GenericJoin / Merge) on relations over every partition shape and both column orders, against "
         "the set-comprehension definition computed in the harness (count, membership of every expected tuple, equality); "
         "SMT-decided per path, counterexamples replayed natively.",
-        "4 left x 5 right headings over {a,b,c,d}, 1..2 rows per side, cells in {0,1}; nest/unnest and sugar-heading operands "
-        "(@, @item ...) are not in the registered bound; rank is checked under C06"),
+        "4 left x 5 right headings over {a,b,c,d}, 1..2 (thorough 1..3) rows per side, cells in {0,1}; nest (|b|bs, |b,c|bcs, "
+        "~|a|rest, single-attribute nest, keyed and unary relations, join results with unsorted columns) through the real "
+        "compiler on relations of 1..3 rows, with rel.Unnest as the inverse (the unnest syntax itself does not compile: known "
+        "finding under C10); sugar-heading operands (@, @item ...) are not in the registered bound; rank is checked under C06"),
     "C05": (
         "Bounded symbolic execution of the real SetCall/CallAll (String, Bytes, Array, Dict, Relation), SeqArrowExpr.Eval (>>), "
         "Concatenate (++) and OffsetExpr.Eval (n\\seq) against a denotation oracle on (index, value) pairs: unique-value-or-error "
@@ -90,7 +92,8 @@ CLAIMED = {
         "value or an error, never a Go panic; hangs would exceed the executor's step budget or be reported as deadlocks. Crashes "
         "are replayed natively. Listed known findings (colliding array indices, ill-typed sugar tuples) are reported as such.",
         "26x26 operand kinds (the 18-kind universe plus 8 odd shapes: string-keyed dict, non-numeric @, union of kinds, nested/"
-        "sparse arrays, sparse string, native function) with concrete representative numbers; 'for all byte strings offered as source' (lexer/parser/"
+        "sparse arrays, sparse string, native function) with concrete representative numbers; 145 odd, ill-typed or malformed "
+        "program texts through the real parser/compiler/evaluator; 'for all byte strings offered as source' (lexer/parser/"
         "compiler), the stdlib functions and the CLI/shell recover paths are outside; the import-cycle hang is checked under C16"),
     "C11": (
         "Narrow: two guest goroutines under the executor's cooperative scheduler (all interleavings within a context bound of 2 "
